@@ -14,7 +14,10 @@ import (
 type streamFn func(res *Result, drv *Driver, seed uint64, n int, tier string, only int) error
 
 var streams = map[string]streamFn{
-	"rio": runRio,
+	"rio":    runRio,
+	"skip":   runSkip,
+	"riodmg": runRioDmg,
+	"pq":     runPq,
 }
 
 func main() {
